@@ -16,31 +16,88 @@ Proof.
     rewrite IH; [reflexivity| | |assumption]; lia.
 Qed.
 
+(* utf8.DecodeRuneInString never claims more bytes than there are *)
+Lemma decode_size : forall s, s <> [] -> 1 <= snd (decode_rune s) <= zlen s.
+Proof.
+  intros s Hs. destruct s as [|a t]; [congruence|]. unfold decode_rune.
+  destruct (a <? 128)%N; [unfold zlen; cbn; lia|].
+  destruct (first_info a) as [[[sz lo] hi]|]; [|unfold zlen; cbn; lia].
+  destruct (zlen (a :: t) <? sz); [unfold zlen; cbn; lia|].
+  destruct t as [|b t]; [unfold zlen; cbn; lia|].
+  destruct ((b <? lo) || (hi <? b))%N; [unfold zlen; cbn [List.length snd]; lia|].
+  destruct (sz <=? 2); [unfold zlen; cbn [List.length snd]; lia|].
+  destruct t as [|c t]; [unfold zlen; cbn [List.length snd]; lia|].
+  destruct (negb (is_cont c)); [unfold zlen; cbn [List.length snd]; lia|].
+  destruct (sz <=? 3); [unfold zlen; cbn [List.length snd]; lia|].
+  destruct t as [|d t]; [unfold zlen; cbn [List.length snd]; lia|].
+  destruct (negb (is_cont d)); unfold zlen; cbn [List.length snd]; lia.
+Qed.
+
+(* the range loop computes the byte offset of character number index (len(contents) when there is none) *)
+Lemma yaml_loop_char_offset : forall fuel s i n total, (List.length s <= fuel)%nat -> total = i + zlen s ->
+  yaml_offset_loop fuel s i (Z.of_nat n) total = i + Z.of_nat (char_offset_aux fuel s n).
+Proof.
+  induction fuel as [|f IH]; intros s i n total Hf Ht.
+  - destruct s; [|cbn in Hf; lia]. cbn. unfold zlen in Ht. cbn in Ht. lia.
+  - destruct s as [|b r]; [cbn; unfold zlen in Ht; cbn in Ht; lia|].
+    cbn [yaml_offset_loop char_offset_aux]. destruct n as [|n].
+    + cbn. lia.
+    + replace (Z.of_nat (S n) =? 0) with false by (symmetry; apply Z.eqb_neq; lia).
+      pose proof (decode_size (b :: r) ltac:(congruence)) as D.
+      set (w := Z.max (snd (decode_rune (b :: r))) 1) in *.
+      assert (Hw : 1 <= w <= zlen (b :: r)) by (unfold w; lia).
+      replace (Z.of_nat (S n) - 1) with (Z.of_nat n) by lia.
+      unfold zdrop. unfold zlen in *.
+      rewrite IH; [lia| rewrite skipn_length; lia | rewrite skipn_length; lia].
+Qed.
+
+Lemma yaml_offset_is_char_offset : forall contents n,
+  yaml_offset contents (Z.of_nat n) = Z.of_nat (char_offset contents n).
+Proof.
+  intros. unfold yaml_offset, char_offset. rewrite yaml_loop_char_offset; [lia|lia|reflexivity].
+Qed.
+
+Lemma char_offset_le : forall fuel s n, (List.length s <= fuel)%nat -> (char_offset_aux fuel s n <= List.length s)%nat.
+Proof.
+  induction fuel as [|f IH]; intros s n Hf; [cbn; lia|].
+  destruct n as [|n]; [cbn; lia|]. destruct s as [|b r]; [cbn; lia|].
+  cbn [char_offset_aux]. pose proof (decode_size (b :: r) ltac:(congruence)) as D. unfold zlen in D.
+  set (w := Z.to_nat (Z.max (snd (decode_rune (b :: r))) 1)) in *.
+  assert (1 <= w <= List.length (b :: r))%nat by (unfold w; lia).
+  specialize (IH (skipn w (b :: r)) n). rewrite skipn_length in IH. lia.
+Qed.
+
 Section Yaml.
 Variable swidth : list N -> Z.
 
-(* gojq's side, for every contents and every index inside it: the report is correct for BYTE number index *)
-Theorem yaml_report_is_for_byte : forall contents index, (index < List.length contents)%nat ->
-  pos_ok swidth contents index (getLineByOffset swidth contents (Z.of_nat index + 1)) /\
-  yaml_error_header swidth (codes "<stdin>") contents (Z.of_nat index) =
-    (let '(ls, line, col) := getLineByOffset swidth contents (Z.of_nat index + 1) in
-     render (codes "invalid yaml: ") (codes "<stdin>") contents true (codes "<stdin>") ls line col).
-Proof. intros. split; [now apply glbo_in_range|reflexivity]. Qed.
-
-(* hence it points at go-yaml's CHARACTER number index whenever everything before it is ASCII ... *)
-Theorem yaml_report_ascii : forall contents index, (index < List.length contents)%nat ->
-  forallb is_ascii (firstn index contents) = true ->
-  pos_ok swidth contents (char_offset contents index) (getLineByOffset swidth contents (Z.of_nat index + 1)).
+(* yamlParseError.Error (current code), for every contents and every index >= 0: the report is correct for
+   CHARACTER number index of the contents (its first byte), or for the end of the contents when there is no such
+   character; the text printed is `render` of that report *)
+Theorem yaml_report_correct : forall fname contents index,
+  let o := char_offset contents index in
+  let rep := getLineByOffset swidth contents (yaml_offset contents (Z.of_nat index) + 1) in
+  ((o < List.length contents)%nat -> pos_ok swidth contents o rep) /\
+  ((o >= List.length contents)%nat -> pos_ok_eof swidth contents rep) /\
+  yaml_error_header swidth fname contents (Z.of_nat index) =
+    (let '(ls, line, col) := rep in render (codes "invalid yaml: ") fname contents true fname ls line col).
 Proof.
-  intros contents index Hi Ha. unfold char_offset. rewrite char_offset_ascii; try assumption; try lia.
-  now apply glbo_in_range.
+  intros fname contents index. cbv zeta. rewrite yaml_offset_is_char_offset.
+  split; [intros H; now apply glbo_in_range|]. split; [|unfold yaml_error_header; rewrite yaml_offset_is_char_offset; reflexivity].
+  intros H. pose proof (char_offset_le (List.length contents) contents index (le_n _)) as L. fold (char_offset contents index) in L.
+  apply glbo_past_end. unfold zlen. lia.
 Qed.
+
+(* for ASCII text characters are bytes *)
+Theorem char_offset_ascii_text : forall contents index, (index <= List.length contents)%nat ->
+  forallb is_ascii (firstn index contents) = true -> char_offset contents index = index.
+Proof. intros. unfold char_offset. apply char_offset_ascii; try assumption; lia. Qed.
 End Yaml.
 
 (* ... and not otherwise: `世界: 1\n  x: 2\n`, go-yaml: "mapping values are not allowed in this context" at
    line 2 column 4, index 9 (characters); byte 9 is the LF of line 1, the character is byte 13 on line 2 *)
 Definition yaml_wide : list N :=
   [228; 184; 150; 231; 149; 140]%N ++ codes ": 1" ++ [10%N] ++ codes "  x: 2" ++ [10%N].
+(* regression: the arithmetic before commit 652e0ad used Index+1 as a byte offset *)
 Lemma yaml_wide_wrong : forall swidth,
   char_offset yaml_wide 9 = 13%nat /\
   ~ pos_ok swidth yaml_wide (char_offset yaml_wide 9) (getLineByOffset swidth yaml_wide (Z.of_nat 9 + 1)).
@@ -50,3 +107,7 @@ Proof.
   destruct (getLineByOffset sw yaml_wide (Z.of_nat 9 + 1)) as [[ex line] col]. cbn [fst snd] in L. subst line.
   destruct H as [H _]. vm_compute in H. discriminate H.
 Qed.
+
+Lemma yaml_wide_now_right : forall swidth,
+  getLineByOffset swidth yaml_wide (yaml_offset yaml_wide 9 + 1) = (codes "  x: 2", 2, swidth (codes "  x")).
+Proof. intros. vm_compute. reflexivity. Qed.
